@@ -1,6 +1,7 @@
 (** C18: the dispersion-formula kernels regenerated from optiland/materials/material_file.py
     equal the refractiveindex.info formulas of Spec/S_C18.v -- for every coefficient list
     (any length) and every wavelength; then what those formulas mean over the reals. *)
+From Coq Require Import PrimFloat.
 From Coq Require Import Reals Lra Lia ZArith List Bool Psatz.
 From OV Require Import Ops OpsC18 RInst Spec.S_C18 Gen.Materials.
 Import ListNotations.
@@ -185,8 +186,8 @@ Proof.
 Qed.
 Ltac rd i :=
   match goal with |- context [nthZ ?l i] =>
-    let x := eval cbn in (nth_error l (Z.to_nat i)) in
-    match x with Some ?v => rewrite (@nthZ_ok _ l i v ltac:(lia) eq_refl) end
+    let x := eval compute in (nth_error l (Z.to_nat i)) in
+    lazymatch x with @Some _ ?v => rewrite (@nthZ_ok _ l i v ltac:(lia) eq_refl) end
   end.
 
 Lemma sum_pairs_ext {O : Ops} (t1 t2 : T O -> T O -> T O) (H : forall a b, t1 a b = t2 a b) :
@@ -256,23 +257,31 @@ Proof.
   unfold k_formula_6, spec_formula_6, sq, one. rewrite nthZ_head.
   change (c1 :: rest) with ([c1] ++ rest).
   change 1%Z with (Z.of_nat (length [c1])) at 2.
-  rewrite (sum_pairs_ext (O := ROps) (fun a b => div a (sub b (div (ofZ 1) (mul w w))))
-             (fun a b => div a (sub b (powZ w (-2))))).
-  2:{ intros a b. unfold powZ. cbn. rops. f_equal. f_equal. f_equal. ring. }
-  rewrite <- (pair_loop (O := ROps) (fun a b => div a (sub b (powZ w (-2)))) [c1] rest (add (ofZ 1) c1)).
+  rewrite (sum_pairs_ext (O := ROps) (fun a b => div (o := ROps) a (sub (o := ROps) b (div (o := ROps) (ofZ 1) (mul (o := ROps) w w))))
+             (fun a b => div (o := ROps) a (sub (o := ROps) b (@powZ ROps w (-2))))).
+  2:{ intros a b. unfold powZ. change (Z.to_nat (- -2)) with 2%nat. cbn. rops. replace (w * (w * 1))%R with (w * w)%R by ring. reflexivity. }
+  rewrite <- (pair_loop (O := ROps) (fun a b => div (o := ROps) a (sub (o := ROps) b (@powZ ROps w (-2)))) [c1] rest (add (o := ROps) (ofZ 1) c1)).
   unfold pair_body.
   match goal with |- match ?A with _ => _ end = ?B => change B with A; destruct A; reflexivity end.
 Qed.
 
+(** the wavelengths `BaseMaterial.abbe` evaluates the index at *)
+Definition line_d (O : Ops) : T O := lit 5875618 (-7) 0x1.2cd4e676c1fe4p-1%float.
+Definition line_F (O : Ops) : T O := lit 4861327 (-7) 0x1.f1ccc54010914p-2%float.
+Definition line_C (O : Ops) : T O := lit 6562725 (-7) 0x1.5002f2f987400p-1%float.
+
 Theorem abbe_definition : forall (O : Ops) (n : T O -> T O),
-  k_abbe O n = spec_abbe (n (lit 5875618 (-7) 0x1.2cd4e676c1fe4p-1%float))
-                         (n (lit 4861327 (-7) 0x1.f1ccc54010914p-2%float))
-                         (n (lit 6562725 (-7) 0x1.5002f2f987400p-1%float)).
+  k_abbe O n = spec_abbe (n (line_d O)) (n (line_F O)) (n (line_C O)).
 Proof. reflexivity. Qed.
 
-(** the three wavelengths are the Fraunhofer d, F and C lines (in micrometres), exactly *)
+(** they are the Fraunhofer d, F and C lines (in micrometres), exactly; so V = (n_d - 1)/(n_F - n_C) *)
 Lemma abbe_lines :
-  (lit (o := ROps) 5875618 (-7) 0x1.2cd4e676c1fe4p-1%float = 0.5875618 /\
-   lit (o := ROps) 4861327 (-7) 0x1.f1ccc54010914p-2%float = 0.4861327 /\
-   lit (o := ROps) 6562725 (-7) 0x1.5002f2f987400p-1%float = 0.6562725)%R.
-Proof. rops. unfold Rlit. cbn. repeat split; lra. Qed.
+  (line_d ROps = 0.5875618 /\ line_F ROps = 0.4861327 /\ line_C ROps = 0.6562725)%R.
+Proof. unfold line_d, line_F, line_C. rops. unfold Rlit. cbn. repeat split; lra. Qed.
+
+Theorem abbe_number : forall n : R -> R,
+  k_abbe ROps n = ((n 0.5875618 - 1) / (n 0.4861327 - n 0.6562725))%R.
+Proof.
+  intros n. rewrite abbe_definition. destruct abbe_lines as (Ed & EF & EC).
+  rewrite Ed, EF, EC. reflexivity.
+Qed.
